@@ -124,7 +124,7 @@ def random_supercell_matrix(rng, d, negative=False, skew=False):
         return N, det
 
 
-def supercell(rng, nr, spec, N, noise):
+def supercell(rng, nr, spec, N, noise, disp=None):
     """supercell description: lattice A N, every atom repeated over the |det N| cosets, shuffled, noisy"""
     d = spec.dim
     Nq = [[Fr(int(x)) for x in r] for r in N]
@@ -139,6 +139,8 @@ def supercell(rng, nr, spec, N, noise):
                 if v not in seen: seen.append(v)
                 if len(seen) == n: break
             if len(seen) != n: raise RuntimeError("harness: %d cosets found for |det| = %d" % (len(seen), n))
+            if disp and (c, k) in disp:     # the same small displacement on every copy of this atom (supercell unit coordinates)
+                seen = [tuple(float(x) + float(dx) for x, dx in zip(v, disp[(c, k)])) for v in seen]
             out += seen; sp += [spec.spins[c][k] if spec.spins else 0] * n
         idx = list(range(len(out))); rng.shuffle(idx)
         basis.append([np.array([float(x) for x in out[i]]) + (nr.uniform(-noise, noise, d) if noise else 0.0) for i in idx])
@@ -204,6 +206,7 @@ def run(ck):
     ncases += len(forced)
     while stats["cases"] < ncases and tries < 20 * ncases:
         tries += 1
+        forced_case = bool(forced); family = "forced"
         if forced:
             spec, N = forced.pop(0)
             dim = spec.dim; det = int(latt.fdet([[Fr(x) for x in r] for r in N])); neg = det < 0
@@ -215,23 +218,49 @@ def run(ck):
                 spec = pseudo_translation_spec(rng, spec)
             if latt.pure_translations(spec_view(spec)):
                 stats["rejected-nonprimitive"] += 1; continue
-            neg = rng.random() < 0.1
-            skew = rng.random() < 0.5
-            N, det = random_supercell_matrix(rng, dim, neg, skew)
-            stats["skewed"] = stats.get("skewed", 0) + int(skew)
-            if rng.random() < 0.6: spec = origin_shift(spec)
             thr = rng.choice([1e-8, 1e-8, 1e-6, 1e-5])
+            if rng.random() < 0.25 and spec.natoms() >= 2:
+                # family "uniform displacement": plain diagonal supercell (det 2..4), ONE atom displaced by the same vector in
+                # all its copies, amplitude 0.45 or 0.6 x threshold per component in SUPERCELL unit coordinates (below the threshold there;
+                # stretched by the reduction factor in the reduced cell, where the code's scaled threshold must still accept it)
+                diag = rng.choice([[2, 1, 1], [1, 2, 1], [1, 1, 2], [2, 2, 1], [1, 2, 2], [3, 1, 1], [1, 1, 3], [4, 1, 1], [1, 3, 1]] if dim == 3
+                                  else [[2, 1], [1, 2], [3, 1], [1, 3], [2, 2], [1, 4]])
+                M_ = np.diag(diag)
+                # (pure diagonal only: calibrated on the unchanged tree -- with a shear the displacement is amplified by the row sum of N in
+                #  the primitive cell's coordinates, beyond the reduction factor the code scales its threshold with, and operations are lost)
+                N = M_.tolist(); det = int(round(np.linalg.det(M_))); neg = False
+                sizes = [len(ul) for ul in spec.basis]
+                cmin = min(range(len(sizes)), key=sizes.__getitem__)
+                c_ = rng.randrange(len(sizes)); k_ = rng.randrange(sizes[c_])
+                # the code compares S(u+d)+t with the image atom: the error is up to (1 + largest row sum of |S|) x amplitude when the atom is
+                # mapped onto itself or fixes the translation: 2 x for signed-permutation rotations, 3 x for hexagonal-type ones
+                rows = max(int(np.abs(S_).sum(axis=1).max()) for S_ in latt.holohedry(spec.g))
+                amp = 0.45 if rows == 1 else 0.3
+                disp = {(c_, k_): [amp * thr * rng.choice([1, -1]) for _ in range(dim)]}
+                A, basis, spins = supercell(rng, nr, spec, N, 0.0, disp)
+                noise = amp * thr
+                stats["uniform-displacement"] = stats.get("uniform-displacement", 0) + 1
+                family = "uniform"
+            else:
+                family = "percopy"
+                neg = rng.random() < 0.1
+                skew = rng.random() < 0.5
+                N, det = random_supercell_matrix(rng, dim, neg, skew)
+                stats["skewed"] = stats.get("skewed", 0) + int(skew)
+                if rng.random() < 0.6: spec = origin_shift(spec)
             # per-copy noise of both signs in SUPERCELL unit coordinates; in the unit coordinates of the primitive cell it is amplified
             # by up to the largest row sum of |N|, and the code compares differences of differences (4 x amplitude): keep that below
             # the threshold so that threshold decisions stay separated
-            amp = max(1, max(sum(abs(x) for x in r) for r in N))
-            noise = rng.choice([0.0, 0.05, 0.1, 0.2, 0.2]) * thr / amp
-        A, basis, spins = supercell(rng, nr, spec, N, noise)
+            if family == "percopy":
+                amp = max(1, max(sum(abs(x) for x in r) for r in N))
+                noise = rng.choice([0.0, 0.05, 0.1, 0.2, 0.2]) * thr / amp
+        if forced_case or family == "percopy":
+            A, basis, spins = supercell(rng, nr, spec, N, noise)
         stats["cases"] += 1; stats["negdet"] += int(neg); stats["noisy"] += int(noise > 0)
         replay = {"primitive": spec.describe(), "supercell_matrix": N, "det": det, "noise": noise, "threshold": thr,
                   "lattice": A.tolist(), "basis": [[u.tolist() for u in ul] for ul in basis], "spins": spins}
         ck.case(key=(spec.describe(), N, [[[round(float(x), 6) for x in u] for u in ul] for ul in basis]), nontrivial=True,
-                kind="%dD-det%d-thr%g-%s-%s" % (dim, det, thr, "noisy" if noise else "exact", "spins" if spins else "nospin"),
+                kind="%dD-%s-det%d-thr%g-%s-%s" % (dim, family, det, thr, "noisy" if noise else "exact", "spins" if spins else "nospin"),
                 sample={"primitive": spec.label, "atoms": spec.natoms(), "supercell_matrix": N, "det": det, "noise": noise, "threshold": thr} if len(ck.samples) < 6 else None)
         try:
             prim = latt.build(spec)      # the implementation on the primitive description
@@ -261,6 +290,13 @@ def run(ck):
             report("volume per atom %.12g differs from the primitive description's %.12g" % (vpa, vpa_exp), dict(replay, **summary), "c19-volume-per-atom")
         if cres != cprim:
             report("atoms per species %s differ from the primitive cell's %s" % (cres, cprim), dict(replay, **summary), "c19-species-count")
+        # reduce() scales the threshold by M/|T_m| at every step (unit coordinates are stretched by that factor); each step divides the
+        # atoms by the same factor, so a fully reduced result must carry threshold x (atoms in / atoms out)
+        thr_exp = thr * (sum(len(ul) for ul in basis) / float(res.N))
+        summary["threshold_result"] = res.threshold; summary["threshold_expected"] = thr_exp
+        if not abs(res.threshold - thr_exp) <= 1e-9 * thr_exp:
+            report("crys.threshold = %.6g after reduction by a factor %d, expected requested threshold x factor = %.6g (unit-cell coordinates "
+                   "of the reduced cell are stretched by that factor)" % (res.threshold, round(thr_exp / thr), thr_exp), dict(replay, **summary), "c19-threshold-scaling")
         if not detres > 0:
             report("reduced lattice is left-handed (det %.6g)" % detres, dict(replay, **summary), "c19-lefthanded")
         # exact metric of the returned cell; is it sorted and pair-reduced (what minlattice() guarantees when it runs to completion)?
